@@ -204,6 +204,15 @@ def _():
     d2 = Dependency.create_from_pep_508(t)
     return "||" not in t and d2.constraint.allows(V("1.5")) and not d2.constraint.allows(V("1.0.0.1"))
 
+@w("D41")
+def _():
+    # a value that begins with "in" must not be re-read as the operator "in" when a clause is rebuilt from its constraint
+    from poetry.core.version.markers import parse_marker
+    a = parse_marker('extra == "internal" and extra == "b"').validate({"extra": {"internal", "b"}})
+    b = parse_marker('extra == "internal" or extra == "b"').validate({"extra": {"internal"}})
+    m = parse_marker('(sys_platform == "interix" or sys_platform == "linux") and sys_platform != "linux"')
+    return a is True and b is True and m.validate({"sys_platform": "interix"}) is True and str(m) == 'sys_platform == "interix"'
+
 if __name__ == "__main__":
     ids = sys.argv[1:] or list(W)
     bad = 0
